@@ -579,7 +579,7 @@ def appended_in_round(chk: Check, ctx: FuncCtx, rnd, method="append"):
     return out
 
 
-def simulate_loop(chk: Check, ctx: FuncCtx, loop, carried, inputs, fields=None, base=None, watch=(), call_models=None):
+def simulate_loop(chk: Check, ctx: FuncCtx, loop, carried, inputs=None, fields=None, base=None, watch=(), call_models=None):
     """The loop as a transition system evaluated round by round: the state is the values of the loop-carried variables (from
     their entry terms), every round walks the body's CFG under the state plus that round's `inputs` override and, on a back
     edge, evaluates the variables' back-edge terms to get the next state.  No repository code runs: only reconstructed terms
@@ -601,6 +601,27 @@ def simulate_loop(chk: Check, ctx: FuncCtx, loop, carried, inputs, fields=None, 
                 state[name] = S.ev(phi[3], v0)
             except S.EvalError:
                 state[name] = None
+    if inputs is None:
+        inputs = [{}] * 64
+        if isinstance(loop, ast.For):
+            # the elements the loop runs over, when its iterable evaluates to a concrete sequence under the model
+            it = chk.R.expr(ctx, loop.iter, hdr, binds={"__exclude_loop__": loop})
+            v0 = S.Valuation(1, override=base, fields=fields)
+            v0.call_models = call_models
+            try:
+                seq = S.ev(it, v0)
+            except S.EvalError:
+                seq = None
+            if isinstance(seq, (tuple, list, range)) and len(seq) <= 4096:
+                inputs = []
+                for el in seq:
+                    d = {("iter", it, None): el}
+                    if isinstance(el, tuple):
+                        for i_, x in enumerate(el):
+                            d[("iter", it, i_)] = x
+                    inputs.append(d)
+            else:
+                return Rounds()
     rounds = Rounds()
     rounds.final = dict(state)
     for inp in inputs:
@@ -664,8 +685,8 @@ def simulate_generator(chk: Check, ctx: FuncCtx, loop, base=None, fields=None, c
     """The values a single-loop generator yields for one model input: rounds of `simulate_loop` plus the statements behind the
     loop (evaluated with the final state).  -> list of values | None (not decidable by evaluation) | ("raise",)"""
     carried = loop_carried(chk, ctx, loop)
-    rounds = simulate_loop(chk, ctx, loop, carried, [{}] * max_rounds, fields=fields, base=base, call_models=call_models)
-    if not rounds:
+    rounds = simulate_loop(chk, ctx, loop, carried, None, fields=fields, base=base, call_models=call_models)
+    if not rounds and not isinstance(loop, ast.For):
         return None
     out = []
 
@@ -683,16 +704,42 @@ def simulate_generator(chk: Check, ctx: FuncCtx, loop, base=None, fields=None, c
             if r[2][0] in ("fork", "limit"):
                 return None
             collect(r[1], r.val)
-        last = rounds[-1]
-        kind = last[2][0]
+        last = rounds[-1] if rounds else None
+        kind = last[2][0] if last is not None else "exhausted"
         if kind == "raise":
             return ("raise",)
         if kind == "return" or kind == "exit":
             return out
-        if kind != "left" or last[2][1] is ctx.cfg.node_of[loop]:
+        hdr = ctx.cfg.node_of[loop]
+        if isinstance(loop, ast.For) and kind in ("back", "continue", "exhausted", "break"):
+            # the elements are used up (or the loop was left by break): go on behind the loop
+            after = [s_ for s_, lab in hdr.succ if lab != "T" and lab != "exc"]
+            if not after:
+                return out
+            start = after[0]
+            if kind == "break":
+                return None  # values at a break are not the header's: not handled
+            if not rounds:
+                rounds = Rounds()
+                rounds.final = {}
+                v0 = S.Valuation(1, override=base, fields=fields)
+                v0.call_models = call_models
+                for name, inf in carried.items():
+                    if inf["phi"][0] == "phi":
+                        try:
+                            rounds.final[name] = S.ev(inf["phi"][3], v0)
+                        except S.EvalError:
+                            rounds.final[name] = None
+
+                class _R:
+                    val = v0
+                rounds.append(_R())
+        elif kind != "left" or last[2][1] is hdr:
             return None
+        else:
+            start = last[2][1]
         val = after_loop_valuation(chk, ctx, loop, carried, rounds, fields=fields, call_models=call_models)
-        visited, ex = walk_cfg(chk, ctx, last[2][1], val)
+        visited, ex = walk_cfg(chk, ctx, start, val)
         if ex[0] in ("fork", "limit"):
             return None
         collect(visited, val)
@@ -710,12 +757,30 @@ def simulate_assembly(chk: Check, ctx: FuncCtx, loop, base=None, fields=None, ca
     -> ([(output offset, length, 'zeros' | 'file' | 'parent', source offset | None)], total length | None) or None (not decidable)"""
     R = chk.R
     carried = loop_carried(chk, ctx, loop)
-    rounds = simulate_loop(chk, ctx, loop, carried, [{}] * max_rounds if inputs is None else inputs, fields=fields, base=base, call_models=call_models)
-    if inputs is None:
-        if not rounds or rounds[-1][2][0] != "left":
-            return None
-    elif len(rounds) != len(inputs) or any(r[2][0] not in ("back", "continue") for r in rounds):
-        return None  # a loop over given elements runs once per element
+    # the way to the loop: a fast path in front of it may answer the request on its own (`return <one piece>`)
+    hdr0 = ctx.cfg.node_of[loop]
+    v_pre = S.Valuation(1, override=base, fields=fields)
+    v_pre.call_models = call_models
+    pre_nodes, pre_exit = walk_cfg(chk, ctx, ctx.cfg.entry, v_pre, stop=lambda n_: n_ is hdr0)
+    early = None
+    if pre_exit[0] == "return":
+        early = pre_exit[1]
+    elif pre_exit[0] == "raise":
+        return None
+    elif pre_exit[0] != "stop":
+        return None
+
+    class _Pre(tuple):
+        val = v_pre
+    if early is not None:
+        rounds = Rounds([_Pre(({}, pre_nodes, ("left", None), {}))])
+    else:
+        rounds = simulate_loop(chk, ctx, loop, carried, [{}] * max_rounds if inputs is None else inputs, fields=fields, base=base, call_models=call_models)
+        if inputs is None:
+            if not rounds or rounds[-1][2][0] != "left":
+                return None
+        elif len(rounds) != len(inputs) or any(r[2][0] not in ("back", "continue") for r in rounds):
+            return None  # a loop over given elements runs once per element
     segs = []
     pos = 0
     last_seek = {}
@@ -744,6 +809,8 @@ def simulate_assembly(chk: Check, ctx: FuncCtx, loop, base=None, fields=None, ca
                 piece = where = None
                 if isinstance(a, ast.Expr) and isinstance(a.value, ast.Call) and isinstance(a.value.func, ast.Attribute) and a.value.func.attr == "append" and len(a.value.args) == 1:
                     piece = a.value.args[0]
+                elif early is not None and node is early and isinstance(a, ast.Return) and a.value is not None:
+                    piece = a.value  # the fast path's answer is the whole result
                 elif isinstance(a, ast.Assign) and len(a.targets) == 1 and isinstance(a.targets[0], ast.Subscript) and isinstance(a.targets[0].slice, ast.Slice):
                     sl = a.targets[0].slice
                     if sl.lower is None or sl.step is not None:
